@@ -2,7 +2,7 @@
 from common import *
 import scripts
 
-THEOREMS = ['fault_surfaces', 'first_request_fails', 'generic_read_fault']
+THEOREMS = ['fault_surfaces', 'first_request_fails', 'generic_read_fault', 'octet_string_fault']
 RULE = ("for each generated (mode, input, script) case the implementation driver counts the requests r the routine issues on a fault-free "
         "contract-asserting source (stingy / chunked / over-granting), then re-runs it with the k-th request failing for every k < r (at most "
         "48 evenly spaced k for long runs): the call must return exactly the injected source error (Display == marker) — never a value, a "
@@ -51,5 +51,5 @@ def nontrivial(req, ans):
     return ans.startswith("ok requests=") and not ans.startswith("ok requests=0 ")
 
 LEVEL = "proof"
-LEVEL_TEXT = 'Lean 4 theorem (same program induction): for every capture-free routine, input, conforming policy and EVERY position k of the failing request, the result is the injected source error or - if fewer than k+1 requests are issued - exactly the fault-free result; never another value, a content error in its place, or a panic (fault_surfaces). The stream-layer model predicts the number of requests and the outcome for each k exactly; the check compares these predictions with the real crate and sweeps every request position (faultsweep).'
-LEVEL_NOTE = 'Trusted: Lean 4.33 kernel; axioms propext, Classical.choice, Quot.sound only; the hand-written model (lean/Bcder/Model) tied to /repo on every run by differential correspondence (tools/check.py, harness/, lean/Driver.lean); reference definitions lean/Bcder/Spec. PARTIAL: capture-using routines are covered by the fault sweeps only (see C07). The fault is a failing Source::request.'
+LEVEL_TEXT = 'Lean 4 theorem (same program induction): for EVERY routine (capture-free or capturing, see C07), input, conforming policy and EVERY position k of the failing request, the result is the injected source error or - if fewer than k+1 requests are issued - exactly the fault-free result; never another value, a content error in its place, or a panic (fault_surfaces). The stream-layer model predicts the number of requests and the outcome for each k exactly; the check compares these predictions with the real crate and sweeps every request position (faultsweep).'
+LEVEL_NOTE = 'Trusted: Lean 4.33 kernel; axioms propext, Classical.choice, Quot.sound only; the hand-written model (lean/Bcder/Model) tied to /repo on every run by differential correspondence (tools/check.py, harness/, lean/Driver.lean); reference definitions lean/Bcder/Spec. Capturing routines are inside the theorem since the stream layer models CaptureSource (see C07; octet_string_fault, kernel-evaluated fault inside a capture). The fault is a failing Source::request.'
